@@ -132,6 +132,19 @@ impl Sym {
     pub fn v_trop(&self, x: &[f64]) -> f64 {
         self.f_trop(x) / self.u_trop(x)
     }
+    fn ln_mono(&self, kept: usize, lnx: &[f64]) -> f64 {
+        (0..self.ne).filter(|e| kept >> e & 1 == 0).map(|e| lnx[e]).sum()
+    }
+    /// ln of the largest monomial of U given ln x_e
+    pub fn ln_u_trop(&self, lnx: &[f64]) -> f64 {
+        self.trees.iter().map(|&m| self.ln_mono(m, lnx)).fold(f64::NEG_INFINITY, f64::max)
+    }
+    /// ln of the largest monomial of F given ln x_e
+    pub fn ln_f_trop(&self, lnx: &[f64]) -> f64 {
+        let a = self.forests.iter().filter(|&&(_, c)| c > 0.0).map(|&(m, _)| self.ln_mono(m, lnx)).fold(f64::NEG_INFINITY, f64::max);
+        let b = self.mass_sq_terms.iter().map(|&(m, e, _)| self.ln_mono(m, lnx) + lnx[e]).fold(f64::NEG_INFINITY, f64::max);
+        a.max(b)
+    }
     pub fn n_trees(&self) -> f64 {
         self.trees.len() as f64
     }
